@@ -47,6 +47,9 @@ type HookSpec struct {
 	Sched        []SB   `json:"sched,omitempty"`
 	StartupFails int    `json:"startup_fails,omitempty"`
 	SyncFails    int    `json:"sync_fails,omitempty"`
+	// HoldSyncs: the first n Synchronization executions of this hook are parked on a gate while cluster
+	// changes of the Early list are applied (so that Events arrive while a Synchronization is running)
+	HoldSyncs int `json:"hold_syncs,omitempty"`
 }
 
 type Step struct {
@@ -153,6 +156,9 @@ func Gen(t *rapid.T) Case {
 		if len(hs.Kube) > 0 && rapid.IntRange(0, 5).Draw(t, "syncfail") == 0 {
 			hs.SyncFails = 1
 		}
+		if len(hs.Kube) > 0 && !hs.V0 && rapid.IntRange(0, 2).Draw(t, "hold") == 0 {
+			hs.HoldSyncs = rapid.IntRange(1, 2).Draw(t, "nhold")
+		}
 		if hs.OnStartup == nil && len(hs.Kube) == 0 && len(hs.Sched) == 0 {
 			o := 1
 			hs.OnStartup = &o
@@ -258,6 +264,7 @@ type Trace struct {
 	History map[string][]int
 	// IdleAfterStart: log position (number of executions) when the operator first became idle
 	StartupExecs int
+	HeldSyncs    int
 	Problems     []string
 }
 
@@ -281,6 +288,7 @@ func Run(c Case) (*Trace, error) {
 		return nil, fmt.Errorf("harness: %v", err)
 	}
 	defer env.Close()
+	gateOf := map[string]string{} // "hook/ruleIndex" -> gate name
 	for _, h := range c.Hooks {
 		var rules []vh.Rule
 		if h.StartupFails > 0 {
@@ -288,6 +296,11 @@ func Run(c Case) (*Trace, error) {
 		}
 		if h.SyncFails > 0 {
 			rules = append(rules, vh.Rule{Match: `"type": "Synchronization"`, Times: h.SyncFails, Do: vh.Behaviour{Exit: 1}})
+		}
+		for j := 0; j < h.HoldSyncs; j++ {
+			gate := fmt.Sprintf("gs-%s-%d", h.Name, j)
+			gateOf[fmt.Sprintf("%s/%d", h.Name, len(rules))] = gate
+			rules = append(rules, vh.Rule{Match: `"type": "Synchronization"`, Times: 1, Do: vh.Behaviour{Gate: gate}})
 		}
 		if err := env.Tree.AddHook(h.Name, 0o755, vh.Script{Config: h.Config(), Rules: rules}); err != nil {
 			return nil, fmt.Errorf("harness: %v", err)
@@ -334,16 +347,74 @@ func Run(c Case) (*Trace, error) {
 		return nil
 	}
 	env.Start()
-	for _, st := range c.Early {
-		if st.K == "settle" {
-			continue
-		}
-		if err := apply(st); err != nil {
-			return nil, fmt.Errorf("harness: %v", err)
+	// startup driver: whenever a Synchronization execution is parked on a gate, apply the next early
+	// changes, give the events a moment to travel, then let it finish
+	early := append([]Step{}, c.Early...)
+	nextEarly := func() {
+		for len(early) > 0 {
+			st := early[0]
+			early = early[1:]
+			if st.K == "settle" {
+				continue
+			}
+			_ = apply(st)
+			return
 		}
 	}
-	if !env.WaitIdle(30*time.Millisecond, 30*time.Second) {
-		tr.Problems = append(tr.Problems, "operator did not become idle within 30s after start")
+	if len(gateOf) == 0 {
+		for len(early) > 0 {
+			nextEarly()
+		}
+	}
+	opened := map[string]bool{}
+	deadline := time.Now().Add(30 * time.Second)
+	var idleSince time.Time
+	for {
+		recs, _ := env.Tree.ReadLog()
+		ended := map[string]bool{}
+		for _, r := range recs {
+			if r.Phase == "end" {
+				ended[fmt.Sprintf("%s/%d", r.Hook, r.Seq)] = true
+			}
+		}
+		parkedGate := ""
+		for _, r := range recs {
+			if r.Phase == "start" && !ended[fmt.Sprintf("%s/%d", r.Hook, r.Seq)] {
+				if g, ok := gateOf[fmt.Sprintf("%s/%d", r.Hook, r.Rule)]; ok && !opened[g] {
+					parkedGate = g
+				}
+			}
+		}
+		if parkedGate != "" {
+			nextEarly()
+			nextEarly()
+			time.Sleep(15 * time.Millisecond)
+			_ = env.Tree.OpenGate(parkedGate)
+			opened[parkedGate] = true
+			tr.HeldSyncs++
+			idleSince = time.Time{}
+			continue
+		}
+		if env.IdleNow() {
+			if idleSince.IsZero() {
+				idleSince = time.Now()
+			}
+			if time.Since(idleSince) > 30*time.Millisecond {
+				if len(early) > 0 {
+					nextEarly()
+					idleSince = time.Time{}
+					continue
+				}
+				break
+			}
+		} else {
+			idleSince = time.Time{}
+		}
+		if time.Now().After(deadline) {
+			tr.Problems = append(tr.Problems, "operator did not become idle within 30s after start")
+			break
+		}
+		time.Sleep(time.Millisecond)
 	}
 	recs, _ := env.Tree.ReadLog()
 	for _, r := range recs {
